@@ -65,6 +65,8 @@ type pair interface {
 	// G16 returns the outer circuit (placeholders / constants) and the outer assignment.
 	G16(in outerIn) (frontend.Circuit, frontend.Circuit, error)
 	Plonk(in outerIn) (frontend.Circuit, frontend.Circuit, error)
+	// PlonkMulti: AssertSameProofs / AssertDifferentProofs over several inner proofs (multi_test.go).
+	PlonkMulti(in multiIn) (frontend.Circuit, frontend.Circuit, error)
 }
 
 type pairT[FR emulated.FieldParams, G1 algebra.G1ElementT, G2 algebra.G2ElementT, GT algebra.GtElementT] struct {
